@@ -22,7 +22,8 @@ LEVEL = "exploration"
 RULE = (
     "Well-formed tasks from (a) real eliot runs of generated logging programs (nested/failed actions, remote sub-tasks, "
     "context-less messages, several tasks) and (b) an independent synthetic writer of well-formed task levels (nested up to "
-    "depth 5, and wide actions with up to 24 children so that positions reach two digits); over them "
+    "depth 5, and wide actions with up to 24 children so that positions reach two digits; every third plain message carries a "
+    "user field named action_status); over them "
     "ALL permutations of arrival order when the set has <= 6 (quick) / 7 (thorough) messages, otherwise Hypothesis-"
     "generated permutations and task interleavings; ALL subsets when <= 9 (quick) / 12 (thorough) messages, otherwise "
     "generated subsets. Oracles: Task equality across orders, equality with an independent reference tree, completion "
@@ -113,7 +114,11 @@ def write_task(shape, uuid):
         for kid in node["kids"]:
             pos += 1
             if kid == "m":
-                emit(prefix + [pos], {"message_type": "msg"})
+                extra = {"message_type": "msg"}
+                if (counter[0] + len(prefix)) % 3 == 0:
+                    # an ordinary message may carry a user field of this name (only action_type marks action messages)
+                    extra["action_status"] = "succeeded" if counter[0] % 2 else "started"
+                emit(prefix + [pos], extra)
             else:
                 action(kid, prefix + [pos], "act%d" % len(prefix))
         pos += 1
@@ -175,7 +180,7 @@ def check_messages(tasks_msgs, orders, subsets, perm_limit, subset_limit):
             u = m["task_uuid"]
             seen[u] += 1
             lvl = tuple(m["task_level"])
-            if m.get("action_status") == "started":
+            if "action_type" in m and m.get("action_status") == "started":
                 started_seen.add((u, lvl[:-1]))
             elif len(lvl) > 1 and not info["desc_before_anc"]:
                 # descendant delivered before the start of some ancestor?
